@@ -8,7 +8,7 @@ from pyvc.smt import Obligation, Result, discharge
 from pyvc.par import pmap
 from checks import rulesem as RS, structs, selection
 from contracts import rules as R
-from contracts.rules import WorldTok
+from contracts.rules import WorldTok, NodeVal, Atom
 from spec import semantics as S
 
 def enum_ob(name, ok, where='', **meta):
@@ -60,6 +60,7 @@ def work_logic(lname):
     # quantifier fat rules: ExtendedQuantifierRule._get_node_targets
     results += fat_saturation(logic, funcs)
     results += serial_saturation(logic, funcs)
+    results += access_saturation(logic, funcs)
     # model builder value on open literal sets (C05 generator)
     from checks import c05
     res5, f5 = c05.work_logic(lname)
@@ -137,6 +138,85 @@ class BranchK(R.BranchTok):
                 r = it.fork(it.fresh_bool('all_present')); self.all_answer = r; return r
             return Contract(all_, 'Branch.all')
         return super().sym_getattr(it, name)
+
+def access_saturation(logic, funcs):
+    """AccessNodeRule._get_targets (the MaxWorlds guard) + the rule's _get_node_targets, interpreted from source: the rule
+    declines to add an access pair only when that pair is already on the branch, or the world budget is EXCEEDED (the state in
+    which the modal-operator rules write the quit flag; `reached` alone is not such a state)"""
+    from pytableaux.proof import rules as PR, helpers as H, common as C
+    L = logic.Meta.name
+    out = []
+    w, w2 = WorldTok('w'), WorldTok('w2')
+    for rc in RS.rule_classes(logic):
+        if not issubclass(rc, PR.AccessNodeRule): continue
+        gt = None
+        for c in rc.__mro__:
+            if '_get_targets' in c.__dict__: gt, gtc = c.__dict__['_get_targets'], c; break
+        gt = getattr(gt, '__wrapped__', gt)
+        fi = source.of_function(gt)
+        funcs[fi.key] = dict(file=fi.relfile, qualname=fi.qualname, lines=f'{fi.lineno}-{fi.end_lineno}', sha1=fi.sha1)
+        for c in rc.__mro__:
+            if '_get_node_targets' in c.__dict__:
+                f2 = source.of_function(c.__dict__['_get_node_targets']); funcs[f2.key] = dict(file=f2.relfile, qualname=f2.qualname, lines=f'{f2.lineno}-{f2.end_lineno}', sha1=f2.sha1); break
+        world = R.make_world()
+        class MaxW(SymVal):
+            def sym_getattr(s, it, name):
+                if name in ('is_exceeded', 'is_reached'):
+                    def q(it, br, name=name):
+                        # exceeded implies reached; the two are otherwise independent facts about the branch
+                        n = it.path.notes
+                        if 'exceeded' not in n: n['exceeded'] = it.fork(it.fresh_bool('maxworlds_exceeded'))
+                        if name == 'is_exceeded': return n['exceeded']
+                        if 'reached' not in n: n['reached'] = True if n['exceeded'] else it.fork(it.fresh_bool('maxworlds_reached'))
+                        return n['reached']
+                    return Contract(q, f'MaxWorlds.{name}')
+                raise Outside(f'MaxWorlds.{name}')
+        class Filt(SymVal):
+            def sym_getattr(s, it, name):
+                if name == 'release':
+                    def rel(it, node, br): it.path.notes.setdefault('released', []).append(node)
+                    return Contract(rel, 'FilterHelper.release')
+                raise Outside(f'FilterHelper.{name}')
+        is_access = getattr(rc, 'NodeType', None) is C.AccessNode
+        nodes = [NodeVal(C.AccessNode, dict(world1=w, world2=w2))] if is_access else [NodeVal(C.SentenceWorldNode, dict(sentence=Atom('p'), world=w)), NodeVal(C.AccessNode, dict(world1=w, world2=w2))]
+        bad = []; offered = 0; und = None
+        for node in nodes:
+            def run(path, node=node):
+                it = Interp(path, world)
+                class AM(R.RuleModel):
+                    INLINE = R.RuleModel.INLINE
+                rm = AM(rc, logic, helpers={H.WorldIndex: R.WorldIndexModel(), H.MaxWorlds: MaxW(), H.FilterHelper: Filt()})
+                br = R.BranchTok()
+                return it.iterate(it.call_source(fi, gt, gtc, [rm, node, br], {}, recv=rm)), path
+            try:
+                prs = explore(run)
+            except Outside as e:
+                und = f'outside subset: {e}'; break
+            for pr in prs:
+                if pr.kind != 'return': bad.append(f'exception {pr.value}'); continue
+                targets, path = pr.value
+                qs = path.notes.get('queries', [])
+                present = [q for q in qs if q[0] == 'WorldIndex.has' and q[2] is True]
+                absent = [q for q in qs if q[0] == 'WorldIndex.has' and q[2] is False]
+                added = 0
+                for t in targets:
+                    for g in t['adds']:
+                        for nd in g:
+                            if 'world1' in nd.props: added += 1
+                offered += added
+                if path.notes.get('exceeded'):
+                    continue                                  # limit-affected branch
+                # every pair the body found absent must be offered; with nothing asked (Transitive) a target must be offered
+                need = len(absent) if (absent or present) else 1
+                if added < need:
+                    why = 'the world budget is reached but not exceeded (no quit flag is written in that state)' if path.notes.get('reached') else 'unexplained'
+                    bad.append(f'{added} access node(s) offered where {need} pair(s) are missing: {why}')
+        name = f'C02.saturation.{L}.{rc.__name__}.skips-justified'
+        if und: out.append(Result(name, 'unknown', detail=und, where=fi.where)); continue
+        out.append(discharge(enum_ob(name, not bad and offered >= 1, where=fi.where, logic=L, rule=rc.__name__,
+                                     clause='an access rule declines to add a missing access pair only on a branch whose world budget is exceeded',
+                                     cex=dict(reasons=sorted(set(bad))))))
+    return out
 
 def serial_saturation(logic, funcs):
     """access.Serial: _get_targets + the real _should_apply (inlined): a world without successor is offered a
@@ -285,6 +365,7 @@ def run(ctx):
         from checks import c09
         return c09.replay_identity_order(r)
     ctx.replayers['C02.identity.'] = _rid
+    ctx.replayers['C02.saturation.'] = replay_saturation
     ctx.replayers['C02.'] = lambda r: dict(reproduced=None, detail='see counterexample / meta')
 
 def replay(payload):
@@ -298,3 +379,35 @@ def replay(payload):
         fails = P.branch_model_failures(logic, tab, sem) if o == 'invalid' else []
         return dict(reproduced=bool(fails), detail=f"{f['logic']} {f['argument']}: outcome {o}; failures {fails[:2]}")
     return dict(reproduced=None, detail='see counterexample / meta')
+
+
+def modal_family():
+    "small structured modal arguments (Polish, conclusion:premises) that make the prover create worlds up to its budget"
+    prem = ['Lb', 'LMa', 'Mc', 'MLa', 'LLb', 'LCab', 'MMc', 'LMMa']
+    concl = ['b', 'Lb', 'Ma', 'LLb', 'MLa']
+    import itertools as _it
+    for k in (1, 2, 3):
+        for ps in _it.combinations(prem, k):
+            for c in concl:
+                yield c + ':' + ':'.join(ps)
+
+def replay_saturation(r):
+    "search the structured modal family for a limit-free open branch of the real prover whose own model fails a node of the branch"
+    from pytableaux.lang import Argument
+    from bounded import prover as P
+    L = r.meta.get('logic')
+    if not L: return dict(reproduced=None, detail='no logic in the obligation meta')
+    logic = RS.registry()(L)
+    if not logic.Meta.modal: return dict(reproduced=None, detail='see counterexample / meta')
+    sem = S.spec_of(L)
+    n = 0
+    for astr in modal_family():
+        n += 1
+        o, tab = P.outcome(logic, Argument(astr), is_build_models=True)
+        if o != 'invalid': continue
+        try: fails = P.branch_model_failures(logic, tab, sem)
+        except Exception as e: fails = [('exception', type(e).__name__)]
+        fails = [f for f in fails if f[0] != 'evaluator']
+        if fails:
+            return dict(reproduced=True, detail=f'{L} {astr}: completed with a limit-free open branch whose own model fails {list(fails[0])}', argument=astr)
+    return dict(reproduced=False, detail=f'no failing open branch among {n} structured modal arguments in {L}')
